@@ -948,11 +948,14 @@ func main() {
 	nCorp, nGen, nHost, nMix := 30, 14, 8, 12
 	if thorough {
 		nCorp, nGen, nHost, nMix = len(corp), 60, 30, 40
+		if raceEnabled { // a compilation under the race detector costs 5-10x
+			nCorp, nGen, nHost, nMix = 110, 40, 20, 30
+		}
 	}
 	if nCorp > len(corp) {
 		nCorp = len(corp)
 	}
-	if thorough {
+	if thorough && !raceEnabled {
 		specs = append(specs, corp...)
 	} else { // a seeded sample, always including the repository's mixin example
 		perm := make([]int, len(corp))
@@ -996,6 +999,9 @@ func main() {
 	nPost := 150
 	if thorough {
 		nPost = 3000
+		if raceEnabled {
+			nPost = 500
+		}
 	}
 	for i := 0; i < nPost*scale; i++ {
 		var apps []mixApp
@@ -1059,6 +1065,9 @@ func main() {
 	nKeyed := 48
 	if thorough {
 		nKeyed = 600
+		if raceEnabled {
+			nKeyed = 150
+		}
 	}
 	for i := 0; i < nKeyed*scale && len(small) > 0; i++ {
 		n := 2 + c.Rng.Intn(5)
@@ -1100,7 +1109,7 @@ func main() {
 
 	// ---- sequential baseline
 	passes := 2
-	if thorough {
+	if thorough && !raceEnabled {
 		passes = 3
 	}
 	base, stable, ok := r.sequential(specs, passes)
@@ -1114,7 +1123,7 @@ func main() {
 	if thorough {
 		rounds = 50
 		if raceEnabled {
-			rounds = 14
+			rounds = 10
 		}
 	}
 	rounds *= scale
@@ -1168,6 +1177,9 @@ func main() {
 		n := 160
 		if thorough {
 			n = 1500
+			if raceEnabled {
+				n = 400
+			}
 		}
 		if ok && r.deaths < 3 {
 			r.batch(tiny, tb, ts, make([]int, n*scale), 12, 12, c.Rng.Uint64(), "tiny")
